@@ -2,6 +2,7 @@
 Spec: spec/Server.tla (+ServerGen, ServerTrace). Driver: qxv server (real QXmppServer on loopback,
 scripted raw TCP clients, password checker whose asynchronous replies the harness finishes)."""
 import collections
+import os
 from concurrent.futures import ThreadPoolExecutor
 
 import vf
@@ -81,14 +82,28 @@ def _replay_and_validate(chk, behs, tag, symbolize=False):
         vf.write_ndjson(inp, part)
         r = None
         for _attempt in (1, 2):
-            r = vf.qxv("server", trace, in_path=inp, seed=chk.seed, tier=chk.tier, opts={"base": base}, check=False,
+            r = vf.qxv("server", trace, in_path=inp, seed=chk.seed, tier=chk.tier, opts={"base": base, "raw": 1 if symbolize else 0}, check=False,
                        env=None if symbolize else {"ASAN_OPTIONS": _ASAN_FAST, "UBSAN_OPTIONS": "print_stacktrace=0:halt_on_error=0"})
             if r["rc"] != 4:
                 break   # rc 4: an execution hit the hang detector; once more before giving up
         if r["rc"] != 0:
             raise vf.MachineryError(f"qxv server exited {r['rc']} (4 = hang detector):\n{r['stderr'][-2000:]}")
         vf.repair_truncated(trace)
-        s = vf.tlc_trace("ServerTrace.tla", "ServerTrace.cfg", trace, tag=f"ServerTrace-{tag}-{k}", heap="3g")
+        violf = chk.path(f"{tag}-viol-{k}.ndjson")
+        if os.path.exists(violf):
+            os.remove(violf)
+        s = vf.tlc_trace("ServerTrace.tla", "ServerTrace.cfg", trace, tag=f"ServerTrace-{tag}-{k}", heap="3g", env={"QXV_VIOL": violf})
+        # failing steps are written by the monitor as it goes (one JSON line each)
+        seen = set()
+        s["viol"] = []
+        for v in vf._decode_gen(violf):
+            for f in v["failed"]:
+                key = (v["case"], v["line"], f["prop"], f["who"])
+                if key not in seen:
+                    seen.add(key)
+                    s["viol"].append({"case": v["case"], "line": v["line"], "e": v["e"], "prop": f["prop"], "who": f["who"]})
+        if len(s["viol"]) != s["nviol"]:
+            raise vf.MachineryError(f"monitor counted {s['nviol']} failed predicates but wrote {len(s['viol'])}")
         return r, s, trace
 
     with ThreadPoolExecutor(max_workers=PAR) as ex:
@@ -149,7 +164,7 @@ def run(chk, replay=None):
             t4, gen["tour_reauth"] = vf.tlc_gen("ServerGen.tla", "ServerGenTourR.cfg")
             allp, gen["all_paths_depth5"] = vf.tlc_gen("ServerGen.tla", "ServerGenAll5.cfg")
             sim, gen["random_walks_full_alphabet"] = vf.tlc_simulate("ServerGen.tla", "ServerGenSim.cfg", num=40000, depth=14, seed=chk.seed)
-            behs += _probed(t3 + t4, always_both=True) + allp + sim
+            behs += _probed(t3 + t4) + allp + sim
         behs = vf.maximal_behaviours(behs)
         chk.cov["generation"] = gen
     vf.write_ndjson(chk.path("behaviours.ndjson"), behs)
